@@ -265,6 +265,9 @@ class Shadow:
         late = [(k, J) for k, J in done if self.instances.get(J['last'][1], {}).get('state') == 'active' and not self.job_cancelled(k[0], J)]
         late += [(k, J) for k, J in jobs if J.get('unsched') and J['state'] == 'Ready' and self.job_cancelled(k[0], J)
                  and self.instances.get(J['unsched'][1], {}).get('state') == 'active']
+        # ... or a Running job whose group gets cancelled now: the canceller unschedules its attempt, then the late CALL arrives
+        late += [(k, J) for k, J in running if not J['ar'] and not self.batches[k[0]]['cancelled'] and not self.batches[k[0]]['deleted']
+                 and self.instances.get(J['inst'], {}).get('state') == 'active' and self.visible(k[0], J)]
         if late:
             cands['late-schedule'] = late
         dead = [n for n, i in self.instances.items() if i['state'] in ('inactive', 'deleted') and i['pool']]
@@ -319,6 +322,16 @@ class Shadow:
             if J['state'] in TERMINAL:
                 a, inst = J['last']
                 self.emit(f'schedule {b} {j} {a} {inst}', 'schedule:after-complete-same-attempt')
+            elif J['state'] == 'Running':
+                a, inst = J['attempt'], J['inst']
+                B = self.batches[b]
+                g = rng.choice(self.ancestors(b, J['group']))
+                self.emit(f'cancel {b} {g}', 'cancel:running-job')
+                if B['groups'][g]['update'] is None or B['updates'][B['groups'][g]['update'] - 1]['committed']:
+                    B['cancelled'].add(g)
+                self.emit(f'unschedule {b} {j} {a} {inst} {ts} cancelled {d}', 'unschedule:cancelled', replayable=True)
+                J.update(state='Ready', attempt=None)
+                self.emit(f'schedule {b} {j} {a} {inst}', 'schedule:after-unschedule-same-attempt')
             else:
                 a, inst = J.pop('unsched')
                 self.emit(f'schedule {b} {j} {a} {inst}', 'schedule:after-unschedule-same-attempt')
